@@ -87,7 +87,13 @@ def build(tier: str) -> list[Obligation]:
         obs.append(obligation(("T", [X, ("Y",)]), reject=True))
         obs.append(obligation(("D", [(("C", "1"), X)]), reject=True))
         obs.append(obligation(("D", [(("C", "1"), ("L", [("B",), X]))]), reject=True))
-    obs.append(obligation(("D", [(("X", "object"), ("I",))]), reject=True))
+    # unsupported (hashable) leaves as dict key, inside a tuple key, as set / frozenset member
+    for xk in skel.HASHABLE_UNSUPPORTED:
+        X = ("X", xk)
+        obs.append(obligation(("D", [(X, ("I",))]), reject=True))
+        obs.append(obligation(("D", [(("C", "1"), ("Y",)), (("T", [("C", "2"), X]), ("N",))]), reject=True))
+        obs.append(obligation(("L", [("E", [X, ("C", "1")]), ("I",)]), reject=True))
+        obs.append(obligation(("T", [("Z", [X]), ("B",)]), reject=True))
     obs.append(obligation(("L", [("E", [("X", "object"), ("C", "1")]), ("I",)]), reject=True))
     obs.append(obligation(("L", [("S",), ("X", "object")]), reject=True))
     if thorough:
